@@ -49,6 +49,8 @@ type Result struct {
 	Stage               string // where the run ended: parse|eval|event:<n>
 	TypeMon             string // first run-time type mismatch seen by the monitor inside eval (kind|static type|what the value is|where)
 	TypeMonChecks       int64
+	TestsCompleted      int    // calls of the test built-in that ran to their end (-1: monitor unavailable)
+	TestsCounted        int    // what the evaluator's TestInfo says
 	StopMon             string // first node that was evaluated to the end although the stop flag was up when it was entered
 }
 
@@ -251,7 +253,14 @@ func RunL1(sc *Scenario, o L1Opts) *Result {
 	evaluator.SimTypeMonTake()
 	evaluator.SimStopMonTake()
 	checks0 := evaluator.SimTypeMonChecks
+	if evaluator.SimTestsCompleted >= 0 {
+		evaluator.SimTestsCompleted = 0
+	}
 	defer func() {
+		res.TestsCompleted = evaluator.SimTestsCompleted
+		if p.Ev != nil {
+			res.TestsCounted = p.Ev.TestInfo.TotalCount()
+		}
 		res.StopMon = evaluator.SimStopMonTake()
 		res.TypeMon = evaluator.SimTypeMonTake()
 		res.TypeMonChecks = evaluator.SimTypeMonChecks - checks0
